@@ -19,6 +19,21 @@ def two_disjoint_edges(A, und):
     return False
 
 
+def partial_swap_feasible(A, B):
+    """randomize_graph_partial_und loops until maxswap swaps succeeded: is there at least one admissible swap now?"""
+    A = np.asarray(A); B = np.asarray(B); n = len(A)
+    E = [(i, j) for i in range(n) for j in range(i + 1, n) if A[i, j] != 0]
+    for x in range(len(E)):
+        for y in range(len(E)):
+            if x == y:
+                continue
+            a, b = E[x]
+            for (c, d) in (E[y], E[y][::-1]):
+                if len({a, b, c, d}) == 4 and not (A[a, d] or A[c, b] or B[a, d] or B[c, b] or B[d, a] or B[b, c]):
+                    return True
+    return False
+
+
 def reach_closure(A):
     n = len(A)
     Rm = (A != 0) | np.eye(n, dtype=bool)
@@ -56,7 +71,7 @@ def run_case(case):
         st, out = call(getattr(bct, r), A, case['itr'], seed=rec, t=t)
     res = {'status': st, 'draws': rec.flat(), 'fails': [], 'extra': {}}
     if not np.array_equal(A, A0):
-        res['fails'].append(('input-modified', {}))
+        res['fails'].append(('input-modified', {}))      # judged even when the call raised or timed out
     if st == 'exc':
         res['exc'] = out
         return res
@@ -204,6 +219,8 @@ def gen_cases(rs, tier, routines=ROUTINES):
                     c['malformed'] = 'disconnected'
                 if r == 'partial_und':
                     c['B'] = rand_graph(rs, nsmall, .2, False).tolist()
+                    if c['itr'] > 0 and not partial_swap_feasible(np.array(c['A']), np.array(c['B'])):
+                        c['itr'] = 0
                 cases.append(c)
         for _ in range(nrand):
             n = int(rs.randint(5, 11 if not big else 15))
@@ -236,6 +253,8 @@ def gen_cases(rs, tier, routines=ROUTINES):
             if r == 'partial_und':
                 c['B'] = rand_graph(rs, n, float(rs.choice([0, .2, .5])), False).tolist()
                 c['itr'] = int(rs.randint(0, 6))
+                if c['itr'] > 0 and not partial_swap_feasible(np.array(c['A']), np.array(c['B'])):
+                    c['itr'] = 0      # no admissible swap: the routine would spin forever (termination is not claimed)
             if r in LAT and rs.rand() < .4:
                 D = rs.randint(0, 6, size=(n, n)).astype(float)
                 if und:
